@@ -116,6 +116,11 @@ def stressors(rng):
     out.append(("macro-redefine", "#define X 1\nprogram p\n a = X\n#undef X\n#define X(a) a+1\n b = X(2)\n#undef X\n#define X 7\n c = X\n#define F(a) a\n d = F(1)\n#undef F\n#define F 2\n e = F\nend program p\n"))
     out.append(("macro-chain-bomb", "".join(f"#define LVL{i} (LVL{i + 1} + LVL{i + 1} + LVL{i + 1} + LVL{i + 1})\n" for i in range(16)) + "#define LVL16 1\n#if LVL0 > 0\ninteger :: i\n#elif LVL1 == LVL2\n#endif\nprogram p\n i = LVL0\nend program p\n"))
     out.append(("macro-fan-bomb", "#define A0 1\n" + "".join(f"#define A{i} A{i - 1} A{i - 1} A{i - 1}\n" for i in range(1, 14)) + "#if defined(A13) && A13\n#endif\nprogram p\n i = A13\nend program p\n"))
+    g8 = "#define G(a,b,c,d,e,f,g,h) a+h\n#define F(a,1) a\n#define H(g,x) g x\n"
+    out.append(("macro-call-commas", g8 + "program p\n  x = G(" + "," * 60 + "\n  y = F(1,2) + H(3,4)\nend program p\n"))
+    out.append(("macro-call-parens", g8 + "program p\n  x = G(" + "(a," * 30 + "\n  x = G(" + "a(" * 40 + ")" * 20 + "\nend program p\n"))
+    out.append(("macro-call-quotes", g8 + "program p\n  x = G('" + ",'" * 31 + "\n  x = G(\"" + ",\"," * 20 + "\nend program p\n"))
+    out.append(("macro-call-many", g8 + "program p\n  x = " + " + ".join(["G(1,2,3,4,5,6,7,8)"] * 40) + " + G(1,2,3\nend program p\n"))
     out.append(("macro-regex", "#define R(a) [a]*+?{a}^$|.\nprogram p\n i = R(1)\nend program p\n"))
     out.append(("self-include", "#include \"@SELF@\"\n#include \"@SELF@\"\nsubroutine si()\n  include '@SELF@'\nend subroutine si\n"))
     out.append(("procedure-outside", "procedure(foo) :: bar\nprocedure :: baz\n"))
@@ -134,3 +139,80 @@ def ext_for(rng, orig=None):
     if orig and rng.random() < 0.5:
         return orig
     return rng.choice([".f90", ".F90", ".f", ".F", ".f08", ".FOR", ".fpp"])
+
+
+# ---------------------------------------------------------------------------------------------
+# statement templates x single token mutations: the near-miss statements an editor sends while the user types
+
+WRAP = ("module tm\n  use iso_fortran_env\n  implicit none\n  type :: tt\n    integer :: c\n  contains\n    procedure :: pb => impl\n  end type tt\n  integer :: arr(3)\n@MS@\n"
+        "contains\n  subroutine impl(self)\n    class(tt) :: self\n  end subroutine impl\n  subroutine host(a, b)\n    integer :: a, b, y, i\n    type(tt) :: o\n    class(tt), allocatable :: q\n@SP@\n"
+        "    y = 1\n@EX@\n  end subroutine host\nend module tm\n@TOP@\n")
+
+TEMPLATES = {
+    "MS": ["  integer, parameter :: n = 3", "  real(kind=8), dimension(3), save :: ar2 = [1, 2, 3]", "  character(len=*), parameter :: s = 'a,b'", "  type(tt), pointer :: p => null()",
+           "  procedure(impl), pointer :: pp => null()", "  public :: tt, impl", "  private", "  interface gen\n    module procedure impl\n  end interface gen",
+           "  interface operator(+)\n    module procedure impl\n  end interface", "  abstract interface\n    subroutine ai(x)\n      import :: tt\n      integer :: x\n    end subroutine ai\n  end interface",
+           "  type, extends(tt), abstract :: t2\n    integer, allocatable :: d(:)\n  contains\n    procedure(ai), deferred, pass(self) :: dm\n    generic :: g => pb, dm\n    final :: impl\n  end type t2",
+           "  enum, bind(c)\n    enumerator :: e1 = 1, e2\n  end enum", "  use iso_c_binding, only: c_int, ci => c_long", "  external :: ext1", "  double precision :: dp", "  integer :: v1, v2(3), v3 = 4",
+           "  common /blk/ v1", "  equivalence (v1, v2)", "  namelist /nl/ v1", "  data v1 /1/", "  include 'inc.f90'", "  integer(kind=selected_int_kind(5)) :: k5", "  type(tt) :: ob = tt(1)",
+           "  character(len=3), dimension(2) :: cs*4", "  integer, dimension(3) :: da, db(5)", "  procedure, pass(self) :: foo", "  module procedure impl", "  import, only: tt"],
+    "SP": ["    integer, intent(in), optional :: a2", "    real, dimension(:,:), allocatable, target :: m2", "    character(len=:), allocatable :: cs", "    type(tt), intent(inout) :: o2",
+           "    use iso_fortran_env, only: i4 => int32", "    implicit none", "    integer, value :: vv", "    procedure(impl) :: dummy_proc", "    class(*), pointer :: up", "    real*8 x8"],
+    "EX": ["    associate (x => y, z => o%c)\n      y = x\n    end associate", "    select type (s => q)\n    type is (tt)\n      y = 1\n    class is (tt)\n    class default\n    end select",
+           "    select case (a)\n    case (1:2)\n      y = 2\n    case default\n    end select", "    do i = 1, 3\n      y = i\n    end do", "    do while (a < b)\n    end do",
+           "    lbl: do i = 1, 2\n      cycle lbl\n    end do lbl", "    do 10 i = 1, 2\n 10 continue", "    if (a > b) then\n      y = 1\n    else if (a < b) then\n    else\n    end if", "    if (a > b) y = 1",
+           "    where (arr > 0) arr = 1", "    where (arr > 0) arr(:) = 1", "    where (arr > 0)\n      arr = 0\n    elsewhere\n    end where", "    forall (i = 1:3) arr(i) = i", "    forall (i = 1:3)\n      arr(i) = 1\n    end forall",
+           "    block\n      integer :: bv\n      bv = 1\n    end block", "    critical\n    end critical", "    call o%pb()", "    call host(a=1, b=y)", "    y = o%c + f(a, b) * arr(1)",
+           "    print *, 'it''s', \"q\" // 'x' ! c", "    write (*, '(a)') 's'", "    allocate(q, source=o)", "    open(unit=1, file='f')", "    y = merge(a, b, a > b)", "    10 format (i5)",
+           "    call host(a, &\n      b)", "    return", "    stop 1", "    y = a; i = b", "    blocks(1) = 0", "    selector = 1", "    type = 2", "    o % c = arr ( 1 )", "    y = ntrue", "    print *, \"hi!\", y"],
+    "TOP": ["program p\n  use tm\n  implicit none\n  call host(1, 2)\nend program p", "submodule (tm) sm\ncontains\n  module procedure impl\n  end procedure impl\nend submodule sm",
+            "function f(x) result(r)\n  integer :: x, r\n  r = x\nend function f", "integer function g(x)\n  integer x\n  g = x\nend function", "recursive pure subroutine rs(x)\n  integer, intent(in) :: x\nend subroutine",
+            "block data bd\nend block data", "subroutine s2()\n  include 'inc.f90'\nend subroutine s2", "module m2\n  use tm, only: tt, h => host\nend module m2"],
+    "PP": ["#define F(a,b) a+b\n  y = F(1,2)", "#define X 1\n#if X > 0 && defined(X)\n  y = 1\n#elif X\n#else\n#endif", "#ifdef X\n#endif", "#ifndef X\n  y = 2\n#endif", "#define X 2\n#undef X\n  y = X",
+           "#include \"x.h\"", "#define M(a) #a\n  y = M(b)", "#if defined(A) || (B == 2)\n#endif", "#define LONG 1 \\\n  + 2\n  y = LONG", "#define G(a,b,c,d,e,f,g,h) a\n  y = G(1,2,3,4,5,6,7,8)", "#if(defined(A))\n#endif"],
+}
+TOKEN_RE = re.compile(r"[A-Za-z_]\w*|\d+|=>|::|==|/=|<=|>=|\*\*|//|&&|\|\||\s+|.", re.S)
+REPL = [",", "(", ")", "=>", "::", "=", "%", "&", "'", "\"", ":", ";", "*", "1", "x", "!", "#", "/", "[", "]", ",,", "()", "(,", ",)"]
+
+
+def stmt_mutations(slot, k):
+    """all single-token mutations of template k of a slot -> list of (tag, statement text)"""
+    st = TEMPLATES[slot][k]
+    toks = TOKEN_RE.findall(st)
+    idx = [n for n, t in enumerate(toks) if not t.isspace()]
+    out = [("orig", st)]
+    for n in idx:
+        out.append((f"del{n}", "".join(toks[:n] + toks[n + 1:])))
+        out.append((f"dup{n}", "".join(toks[:n + 1] + toks[n:])))
+        for r in REPL:
+            out.append((f"rep{n}:{r}", "".join(toks[:n] + [r] + toks[n + 1:])))
+            out.append((f"ins{n}:{r}", "".join(toks[:n] + [r] + toks[n:])))
+    for a, b in zip(idx, idx[1:]):
+        sw = list(toks)
+        sw[a], sw[b] = sw[b], sw[a]
+        out.append((f"swap{a}", "".join(sw)))
+    out.append(("trunc", st[:len(st) // 2]))
+    return out
+
+
+def stmt_mutation_count():
+    return sum(len(stmt_mutations(s, k)) for s in TEMPLATES for k in range(len(TEMPLATES[s])))
+
+
+def stmt_mutation_text(rng):
+    """one mutated statement inside the wrapper -> (tag, text, ext)"""
+    slot = rng.choice(sorted(TEMPLATES))
+    k = rng.randrange(len(TEMPLATES[slot]))
+    muts = stmt_mutations(slot, k)
+    tag, st = rng.choice(muts)
+    fill = {"MS": "", "SP": "", "EX": "", "TOP": ""}
+    if slot == "PP":
+        fill["EX"] = st
+    else:
+        fill[slot] = st
+    text = WRAP
+    for s_, v in fill.items():
+        text = text.replace(f"@{s_}@", v)
+    if rng.random() < 0.15:
+        text = st + "\n"  # the statement alone, outside any scope
+    return f"{slot}{k}:{tag.split(':')[0]}", text, (".F90" if slot == "PP" else rng.choice([".f90", ".f90", ".F90"]))
